@@ -27,6 +27,8 @@ type WireCase struct {
 	// FailWrite: the server-side ResponseWriter's Write fails for this call (the client went away); what matters is
 	// what the *following* calls on the same API value put on the wire
 	FailWrite bool `json:"failWrite,omitempty"`
+	// Reads: how the request body reaches the server and the response body the client (a behaviour of Stream.tla's source)
+	Reads *ReadPlan `json:"reads,omitempty"`
 
 	byStatus bool
 }
@@ -94,6 +96,7 @@ type wireCtx struct {
 	api       http.Handler
 	inject    int
 	failWrite bool
+	reads     *ReadPlan
 }
 
 func RunWire(reg Registry, rec *Recorder, g Group) {
@@ -157,7 +160,7 @@ func (w *wireCtx) do(req *http.Request) (*http.Response, error) {
 	}
 	// what a server would see: a fresh request with the same line, headers and body
 	sreq := req.Clone(req.Context())
-	sreq.Body = newNetBody(body, "request")
+	sreq.Body = newPlannedBody(body, "request", w.reads)
 	sreq.RequestURI = req.URL.RequestURI()
 	if req.ContentLength == 0 && len(body) > 0 {
 		// the client did not know the length: it goes out chunked and a server sees -1
@@ -187,7 +190,7 @@ func (w *wireCtx) do(req *http.Request) (*http.Response, error) {
 		status = 200
 	}
 	w.rec.Emit(Event{"ev": "ServerDone", "case": w.caseID, "status": status, "writes": cw.writes, "hdr": map[string][]string(hdr), "body": b64(cw.body.Bytes())})
-	return &http.Response{StatusCode: status, Status: fmt.Sprint(status), Header: hdr, Body: newNetBody(cw.body.Bytes(), "response"), Request: req,
+	return &http.Response{StatusCode: status, Status: fmt.Sprint(status), Header: hdr, Body: newPlannedBody(cw.body.Bytes(), "response", w.reads), Request: req,
 		ContentLength: int64(cw.body.Len())}, nil
 }
 
@@ -252,6 +255,7 @@ func runWireCase(reg Registry, rec *Recorder, ops []OpInfo, client reflect.Value
 	cur.caseID = wc.ID
 	cur.inject = wc.InjectStatus
 	cur.failWrite = wc.FailWrite
+	cur.reads = wc.Reads
 	script := Script{Parse: true, ReadBody: true, Resp: wc.RespType, Random: true, Seed: wc.RespSeed, Code: 210 + int(wc.RespSeed%80), ByStatus: wc.byStatus} // never a documented status of the universe (200, 201, 404)
 	if wc.DefaultCode > 0 {
 		script.Default, script.Code = true, wc.DefaultCode
